@@ -324,7 +324,8 @@ def run(ctx):
             # reductions
             s = np.sum(res)
             exact_int = cat.dtype.kind in "iub" and isinstance(s, (int, np.integer))
-            same_sum = (int(s) == int(cat.sum())) if cat.dtype.kind in "iub" else bool(np.isclose(float(s), float(cat.sum()), rtol=1e-12, atol=1e-12))
+            # floats: a run-length sum adds value*length per run, the dense sum adds element by element; the two differ by rounding in proportion to the magnitudes added (not to the result, which may be a small difference of huge terms)
+            same_sum = (int(s) == int(cat.sum())) if cat.dtype.kind in "iub" else bool(abs(float(s) - float(cat.sum())) <= 1e-12 * max(1.0, float(np.abs(cat).sum())))
             if cat.dtype.kind in "iub" and not isinstance(s, (int, np.integer, bool, np.bool_)):
                 same_sum = same_sum and float(s) == float(int(cat.sum())) and abs(int(cat.sum())) < 2 ** 53      # an integer array sums to an integer (exactly)
             ctx.check("sum", same_sum, "np.sum", "np.sum(%s) = %r, dense %r" % (txt, s, cat.sum()), dict(wit, expr=txt, got=float(s), expected=float(cat.sum())), (key, txt, "sum"))
@@ -463,7 +464,7 @@ def run(ctx):
             with np.errstate(all="ignore"):
                 leaves = {int(i): make_leaf(int(i)) for i in used}
                 s_ = bnp.compute(evaluate(tree, [leaves.get(i) for i in range(len(kinds))]).sum())
-            ok_sum = bool(np.isclose(float(s_), float(cat.sum(dtype=(np.float64 if cat.dtype.kind == "f" else None))), rtol=1e-6, atol=1e-6))
+            ok_sum = bool(abs(float(s_) - float(cat.sum(dtype=(np.float64 if cat.dtype.kind == "f" else None)))) <= 1e-9 * max(1.0, float(np.abs(cat.astype(np.float64)).sum())))
             if cat.dtype.kind in "iu" and cat.dtype.itemsize < 8:
                 ok_sum = True if ok_sum else None       # sums of narrow integers: the accumulator type is not part of the statement
             if ok_sum is not None:
